@@ -300,13 +300,20 @@ def rule_r5(p, res):
     ei = p.own_method("TriMesh", "edge_indices")
     r.instance(ei)
     pairs = []
+    dei = Defs(ei.node)
     for n in walk_own(ei.node):
         if isinstance(n, ast.Subscript) and isinstance(n.slice, ast.Tuple) and len(n.slice.elts) == 2 and isinstance(n.slice.elts[1], ast.List):
             pairs.append(tuple(const_value(x) for x in n.slice.elts[1].elts))
+    def _n2(v):
+        # `.reshape(-1, 2)` / `.reshape((-1, 2))` / `.reshape([-1, 2])` of three two-column blocks laid side by side
+        if not (isinstance(v, ast.Call) and isinstance(v.func, ast.Attribute) and v.func.attr == "reshape"):
+            return False
+        a_ = v.args[0].elts if len(v.args) == 1 and isinstance(v.args[0], (ast.Tuple, ast.List)) else v.args
+        return [const_value(x) for x in a_] == [-1, 2]
     r.check(sorted(tuple(sorted(x)) for x in pairs) == [(0, 1), (0, 2), (1, 2)] and len(pairs) == 3, ei, ei.node,
             "edge_indices must list the vertex pairs (0,1), (1,2), (2,0) of every triangle (found %s)" % pairs, {"pairs": pairs})
     rets = returns_of(ei.node)
-    r.check(bool(rets) and norm(rets[0].value).endswith(".reshape(-1, 2)"), ei, ei.node, "edge list must be (n_edges, 2)")
+    r.check(bool(rets) and (norm(rets[0].value).endswith(".reshape(-1, 2)") or _n2(expand(rets[0].value, dei))), ei, ei.node, "edge list must be (n_edges, 2)")
     ev = p.own_method("TriMesh", "edge_vectors")
     r.instance(ev)
     diffs = []
@@ -326,19 +333,21 @@ def rule_r5(p, res):
     ue = p.own_method("TriMesh", "unique_edge_indices")
     r.instance(ue)
     v = Defs(ue.node).single("edge_pairs")
-    r.check(v is not None and norm(v) in ("np.sort(self.edge_indices())", "np.sort(self.edge_indices(), axis=1)"), ue, ue.node,
+    r.check(v is not None and norm(v) in ("np.sort(self.edge_indices())", "np.sort(self.edge_indices(), axis=1)", "np.sort(self.edge_indices(), axis=-1)"), ue, ue.node,
             "unique edges must be computed on pairs sorted within each row")
     # the de-duplication compares whole pairs exactly (row-wise unique / a byte view of the row), for every integer dtype of the trilist
     due = Defs(ue.node)
     uq = [k for k in calls_in(ue.node) if (dotted(k.func) or "") in ("np.unique", "numpy.unique") and k.args]
     need(len(uq) == 1, "C17.R5: the np.unique call of unique_edge_indices was not found")
     arg0 = arg = uq[0].args[0]
+    arg_full = arg
     if isinstance(arg, ast.Name) and due.single(arg.id) is not None:
+        arg_full = expand(due.single(arg.id), due)
         arg = due.single(arg.id)
     ax = kwarg(uq[0], "axis")
     if ax is not None and const_value(ax) == 0 and norm(arg0) == "edge_pairs":
         r.ok({"dedup": "row-wise unique"})
-    elif any(isinstance(x, ast.Call) and isinstance(x.func, ast.Attribute) and x.func.attr == "view" for x in ast.walk(arg)) and "np.void" in norm(arg):
+    elif any(isinstance(x, ast.Call) and isinstance(x.func, ast.Attribute) and x.func.attr == "view" for x in ast.walk(arg_full)) and "np.void" in norm(arg_full):
         r.ok({"dedup": "byte view of each row"})
     elif isinstance(arg, ast.BinOp) and any(isinstance(x, ast.Subscript) and norm(x.value) == "edge_pairs" for x in ast.walk(arg)):
         wide = any(isinstance(x, ast.Attribute) and x.attr in ("int64", "uint64") for x in ast.walk(arg))
